@@ -80,3 +80,71 @@ Proof. intros H. induction l as [|x l IH]; cbn; [reflexivity|now rewrite H, IH].
 
 Lemma existsb_ext {A} (p q : A -> bool) l : (forall a, p a = q a) -> existsb p l = existsb q l.
 Proof. intros H. induction l as [|x l IH]; cbn; [reflexivity|now rewrite H, IH]. Qed.
+
+(* ---- index_char ---- *)
+Lemma index_char_from_S i s c : index_char_from (S i) s c = option_map S (index_char_from i s c).
+Proof. revert i; induction s as [|x s IH]; intros i; cbn; [reflexivity|]. destruct (Ascii.eqb x c); [reflexivity|apply IH]. Qed.
+
+Lemma index_char_cons x s c :
+  index_char (x :: s) c = if Ascii.eqb x c then Some 0 else option_map S (index_char s c).
+Proof. unfold index_char. cbn. destruct (Ascii.eqb x c); [reflexivity|]. apply index_char_from_S. Qed.
+
+Lemma index_char_nil c : index_char [] c = None.
+Proof. reflexivity. Qed.
+
+Lemma index_char_Some s c e :
+  index_char s c = Some e ->
+  e < List.length s /\ nth e s c = c /\ existsb (Ascii.eqb c) (firstn e s) = false /\ skipn e s = c :: skipn (S e) s.
+Proof.
+  revert e; induction s as [|x s IH]; intros e; [discriminate|]. rewrite index_char_cons.
+  destruct (Ascii.eqb x c) eqn:E.
+  - intros [= <-]. apply Ascii.eqb_eq in E. subst. cbn. repeat split; lia.
+  - destruct (index_char s c) as [e'|]; [|discriminate]. intros [= <-].
+    destruct (IH e' eq_refl) as (H1 & H2 & H3 & H4). cbn [List.length nth firstn existsb skipn].
+    rewrite Ascii.eqb_sym, E. cbn. repeat split; try lia; assumption.
+Qed.
+
+Lemma index_char_None s c : index_char s c = None <-> existsb (Ascii.eqb c) s = false.
+Proof.
+  induction s as [|x s IH]; [cbn; tauto|]. rewrite index_char_cons. cbn [existsb].
+  rewrite (Ascii.eqb_sym c x). destruct (Ascii.eqb x c); cbn; [split; discriminate|].
+  destruct (index_char s c); cbn; [split; [discriminate|]; intros H; apply IH in H; discriminate|]. tauto.
+Qed.
+
+Lemma index_char_app_notin a b c :
+  existsb (Ascii.eqb c) a = false -> index_char (a ++ c :: b) c = Some (List.length a).
+Proof.
+  induction a as [|x a IH]; cbn [existsb app List.length]; intros H.
+  - rewrite index_char_cons, Ascii.eqb_refl. reflexivity.
+  - apply orb_false_iff in H as [H1 H2]. rewrite index_char_cons, Ascii.eqb_sym, H1, IH by assumption. reflexivity.
+Qed.
+
+Lemma index_char_notin_app a b c :
+  existsb (Ascii.eqb c) a = false -> index_char (a ++ b) c = option_map (fun k => List.length a + k) (index_char b c).
+Proof.
+  induction a as [|x a IH]; cbn [existsb app List.length]; intros H.
+  - destruct (index_char b c); reflexivity.
+  - apply orb_false_iff in H as [H1 H2]. rewrite index_char_cons, Ascii.eqb_sym, H1, IH by assumption.
+    destruct (index_char b c); reflexivity.
+Qed.
+
+Lemma existsb_app_false {A} (p : A -> bool) a b :
+  existsb p (a ++ b) = false <-> existsb p a = false /\ existsb p b = false.
+Proof. rewrite existsb_app, orb_false_iff. tauto. Qed.
+
+(* ---- slices ---- *)
+Lemma slice_app_mid a b c : slice (a ++ b ++ c) (List.length a) (List.length a + List.length b) = b.
+Proof.
+  unfold slice. rewrite skipn_app, skipn_all, Nat.sub_diag. cbn [skipn app].
+  replace (List.length a + List.length b - List.length a) with (List.length b) by lia.
+  rewrite firstn_app, firstn_all, Nat.sub_diag. cbn. now rewrite app_nil_r.
+Qed.
+
+Lemma has_prefix_cons_same c s p : has_prefix (c :: s) (c :: p) = has_prefix s p.
+Proof. cbn. now rewrite Ascii.eqb_refl. Qed.
+
+Lemma has_suffix_app s p : has_suffix (s ++ p) p = true.
+Proof. apply has_suffix_spec. now exists s. Qed.
+
+Lemma split_not_nil c s : split c s <> [].
+Proof. destruct s as [|x s]; cbn; [discriminate|]. destruct (Ascii.eqb x c); [discriminate|]. destruct (split c s); discriminate. Qed.
